@@ -125,12 +125,21 @@ def explore(max_len, cap, seed=0):
 
 
 # --------------------------------------------------------------------------------------------- real side
+_TYPES, _CODE = {}, {}
+
+
+def _real_type(t):
+    if t not in _TYPES:
+        from pytezos.michelson.types.base import MichelsonType
+        _TYPES[t] = MichelsonType.match(M.ty_expr(t))
+    return _TYPES[t]
+
+
 def build_stack(S):
     from pytezos.michelson.stack import MichelsonStack
-    from pytezos.michelson.types.base import MichelsonType
     st = MichelsonStack()
     for t, v in reversed(S):
-        st.push(MichelsonType.match(M.ty_expr(t)).from_micheline_value(M.val_expr(t, v)))
+        st.push(_real_type(t).from_micheline_value(M.val_expr(t, v)))
     return st
 
 
@@ -178,8 +187,10 @@ def exec_real(st, ins):
     from pytezos.context.impl import ExecutionContext
     from pytezos.michelson.micheline import MichelsonRuntimeError
     from pytezos.michelson.sections import CodeSection
+    if ins not in _CODE:
+        _CODE[ins] = CodeSection.match([M.instr_expr(ins)]).args[0]
     try:
-        CodeSection.match([M.instr_expr(ins)]).args[0].execute(st, [], ExecutionContext(address=SELF))
+        _CODE[ins].execute(st, [], ExecutionContext(address=SELF))
     except MichelsonRuntimeError as e:
         return f'{type(e).__name__}{e.args!s:.160}'
     return None
